@@ -959,7 +959,187 @@ def _guarded(fn, oid, function=None):
     return run
 
 
-EXTRA = [_guarded(absent_wrappers, "C07/archive_extractor.py::cached-router-wrappers/vacuous#absent"),
+ENTRY_POINTS = ("is_supported_file", "get_extractor")
+
+
+def _module_level_bindings(tree, name):
+    """statements that bind `name` at module level (also inside top-level if / try / with blocks), not inside functions/classes"""
+    import ast as _ast
+    out = []
+
+    def walk(stmts):
+        for st in stmts:
+            if isinstance(st, (_ast.FunctionDef, _ast.AsyncFunctionDef)):
+                if st.name == name:
+                    out.append(("def", st))
+                continue
+            if isinstance(st, _ast.ClassDef):
+                if st.name == name:
+                    out.append(("other", st))
+                continue
+            if isinstance(st, _ast.ImportFrom):
+                for a in st.names:
+                    if (a.asname or a.name) == name:
+                        out.append(("import", (st, a)))
+                    if a.name == "*":
+                        out.append(("star", (st, a)))
+                continue
+            if isinstance(st, _ast.Import):
+                for a in st.names:
+                    if (a.asname or a.name.split(".")[0]) == name:
+                        out.append(("other", st))
+                continue
+            if isinstance(st, (_ast.Assign, _ast.AnnAssign, _ast.AugAssign)):
+                tg = st.targets if isinstance(st, _ast.Assign) else [st.target]
+                if any(isinstance(x, _ast.Name) and x.id == name for t in tg for x in _ast.walk(t)):
+                    out.append(("other", st))
+                continue
+            for fld in ("body", "orelse", "finalbody"):
+                walk(getattr(st, fld, []) or [])
+            for h in getattr(st, "handlers", []) or []:
+                walk(h.body)
+    walk(tree.body)
+    return out
+
+
+def _resolves_to_router(rel, name, repo, depth=0):
+    """does the module-level name `name` of module `rel` denote router.<entry point> through a chain of plain imports?
+    -> (True, entry) | (False, why) | (None, why = not decidable here)"""
+    import os as _os
+    if depth > 6:
+        return None, "import chain too long"
+    m = loader.module(rel, repo)
+    b = _module_level_bindings(m.tree, name)
+    stars = [x for x in b if x[0] == "star"]
+    b = [x for x in b if x[0] != "star"]
+    if rel == ROUTER:
+        if len(b) == 1 and b[0][0] == "def" and name in ENTRY_POINTS:
+            return True, name
+        return None, f"router.{name} is not a single module-level function"
+    if len(b) != 1 or b[0][0] != "import":
+        return None, f"{rel}: `{name}` is bound {len(b)} times / not by a plain import"
+    st, a = b[0][1]
+    if st.level:
+        base = rel.split("/")[:-1]
+        base = base[:len(base) - (st.level - 1)] if st.level > 1 else base
+        modparts = base + (st.module.split(".") if st.module else [])
+    else:
+        modparts = st.module.split(".")
+    for cand in ("/".join(modparts) + ".py", "/".join(modparts) + "/__init__.py"):
+        if _os.path.exists(_os.path.join(m.repo, cand)):
+            return _resolves_to_router(cand, a.name, repo, depth + 1)
+    return False, f"{rel}: `{name}` is imported from {'.'.join(modparts)}, which is not the router"
+
+
+def public_surface(repo, tier):
+    """The property speaks about the library's entry points, not only about two functions of router.py: every module-level
+    name `is_supported_file` / `get_extractor` that a module of the package offers (re-export, wrapper, alias) must BE the
+    router's function or behave exactly like it on every path string.  A plain import chain ending at router.<name> is decided
+    on the AST; a function of that name defined elsewhere (a wrapper) is verified against the router function's own
+    specification by the engine; anything else is undecided.  The native replayer compares every such surface with the
+    router on its path grammar (incl. forms that pathlib would rewrite: trailing separators, '/.', data: URLs)."""
+    from pyvc import verify
+    from pyvc.contracts import Registry
+    from pyvc.exctypes import Universe
+    from pyvc.flow import ground_obligation
+    obls, fns = [], []
+    reg = None
+    for rel in loader.all_package_files(repo):
+        if rel == ROUTER:
+            continue
+        try:
+            m = loader.module(rel, repo)
+        except SyntaxError:
+            continue
+        for name in ENTRY_POINTS:
+            b = [x for x in _module_level_bindings(m.tree, name) if x[0] != "star"]
+            listed = name in _all_list(m)
+            if not b:
+                if listed:
+                    obls.append(ground_obligation(f"C07/{rel.split('/', 1)[1]}::{name}/public-surface#is-the-router-function", False,
+                                                  "listed in __all__ but not bound by a recognised statement", rel, definite=False))
+                continue
+            oid = f"C07/{rel.split('/', 1)[1]}::{name}/public-surface#is-the-router-function"
+            if len(b) == 1 and b[0][0] == "def":
+                # a wrapper: same contract as the router's function, verified on the real body
+                try:
+                    if reg is None:
+                        reg = Registry()
+                        for c in contracts(reg):
+                            reg.add(c)
+                    fnode = b[0][1]
+                    a = fnode.args
+                    required = [x.arg for x in a.posonlyargs + a.args][:len(a.posonlyargs + a.args) - len(a.defaults)]
+                    if len(required) != 1 or a.vararg or a.kwarg or any(d is None for d in a.kw_defaults):
+                        raise ops.Unsupported(f"signature of {name} is not (path, <defaulted>...)")
+                    par = required[0]
+                    if name == "is_supported_file":
+                        fc = FnContract(target=f"{rel}::{name}", params=[(par, p_str())], raises=[],
+                                        returns=lambda c, par=par: VBool(sup_term(_s(c, par))))
+                    else:
+                        fc = FnContract(target=f"{rel}::{name}", params=[(par, p_str())],
+                                        returns=lambda c, par=par: ge_returns_for_term(_s(c, par)),
+                                        raises=[Raises(NOTSUP, when=lambda c, par=par: ge_raises_term(_s(c, par)))])
+                    rep = verify.run_contract("C07", fc, reg, Universe(repo), repo=repo, timeout_ms=60000 if tier == "thorough" else None,
+                                              executor_cls=EXECUTOR)
+                    if rep.error or rep.out_of_subset:
+                        raise ops.Unsupported((rep.error or rep.out_of_subset)[:200])
+                    bad = [o for o in rep.obligations if o["status"] != "proved"]
+                    status_ok = not bad
+                    definite = any(o["status"] == "refuted" for o in bad)
+                    why = "wrapper verified against the router function's specification" if status_ok else \
+                        "; ".join(f"{o['id'].rsplit('/', 1)[1]}: {o['status']} {o.get('witness') or ''}" for o in bad)[:300]
+                    o = ground_obligation(oid, status_ok, why, rel, definite=definite)
+                    o["backends"] = {"z3": 1}
+                    if bad and bad[0].get("witness"):
+                        o["witness"] = bad[0]["witness"]
+                    obls.append(o)
+                    fns.append(dict(m.fn_info(name), obligations=1))
+                except ops.Unsupported as e:
+                    obls.append(ground_obligation(oid, False, f"wrapper outside the verifiable subset: {e}"[:300], rel, definite=False))
+                continue
+            ok, why = _resolves_to_router(rel, name, repo)
+            if ok is None and len(b) == 1 and b[0][0] == "other" and name in m.assigns:
+                # `name = <expr>` (e.g. an attribute of the imported router module): the engine evaluates the initialiser
+                try:
+                    from pyvc.symex import Executor as _Ex
+                    from pyvc.values import VFunc
+                    ex = _Ex(m, Registry(), Universe(repo))
+                    ex.sinks.append([])
+                    v = ex.module_const(name)
+                    if isinstance(v, VFunc) and v.how == "repo" and v.a == ROUTER and v.b in ENTRY_POINTS:
+                        ok, why = True, v.b
+                except ops.Unsupported:
+                    pass
+            if ok is True and why == name:
+                obls.append(ground_obligation(oid, True, "plain import chain ending at the router function", rel))
+            elif ok is True:
+                obls.append(ground_obligation(oid, False, f"`{name}` is bound to router.{why}", rel, definite=True))
+            else:
+                obls.append(ground_obligation(oid, False, why, rel, definite=False))
+    if not obls:
+        obls.append(ground_obligation("C07/package::public-surface/policy#entry-points-are-exported", False,
+                                      "no module of the package offers is_supported_file / get_extractor", "package", definite=False))
+    return {"obligations": obls, "functions": fns}
+
+
+def _all_list(m):
+    import ast as _ast
+    v = m.assigns.get("__all__")
+    try:
+        return list(_ast.literal_eval(v)) if v is not None else []
+    except (ValueError, SyntaxError, TypeError):
+        return [e.value for e in _ast.walk(v) if isinstance(e, _ast.Constant) and isinstance(e.value, str)]
+
+
+def ge_returns_for_term(s_term, repo=None):
+    p = LOWER(s_term)
+    is_none, val = ft_spec(p, repo)
+    return [(z3.Not(is_none), reg_lookup(val, repo)), (z3.And(is_none, mime_ok(p, repo)), reg_lookup(mime_ft(p, repo), repo))]
+
+
+EXTRA = [_guarded(public_surface, "C07/__init__.py::public-surface/policy#entry-points-are-the-router-functions"),
+         _guarded(absent_wrappers, "C07/archive_extractor.py::cached-router-wrappers/vacuous#absent"),
          _guarded(policy, "C07/router.py::tables/module-invariant#tables-evaluate-to-constants"),
          _guarded(member_loops, "C07/archive_extractor.py::member-loops/call-site#skip-rule-and-dispatch-see-the-same-member-name"),
          _guarded(attachments_site, "C07/data_types.py::EmailContent.iterate_supported_attachments/out-of-subset",
